@@ -29,6 +29,8 @@ CONFIGS = {
     # connection loss incl. reconnect attempts that die during the WebSocket negotiation (onClose without onOpen) after an earlier success
     "set-set-failed-reconnects": dict(modes=("set", "set"), adversary=("failopen-reconnect",), max_opens=4),
     "alloc-input-failed-reconnects": dict(modes=("allocate", "input"), adversary=("failopen-reconnect",), max_opens=4),
+    # several application phases in flight, duplicated / reordered delivery (a later phase can arrive before an earlier one)
+    "set-set-3msg-burst-dup": dict(modes=("set", "set"), nmsg=(3, 1), adversary=("dup",), canon="burst"),
     "solo-alloc": dict(modes=("allocate",), nmsg=(1,)),
     "solo-input": dict(modes=("input",), nmsg=(1,), adversary=("third",)),
 }
